@@ -11,6 +11,7 @@ numeric report tags `-` (missing) | `bad` | `n<int>`.
   oo.init <root> <price> <qty> <ticker> <side> <ordtype> <account>
   oo.act  cNew | cCancel | cReplace <p|-> <q|-> | cRecv | xRecv <d> | xDecide <d> | xAck | xRejNew
           | xFill <q> <px> | xExpire | xSuspend | xResume          (d = accept | reject | pend)
+  oo.actf raises|bumps|reenters cNew | cCancel | cReplace <p|-> <q|->    (builder whose overridden hook misbehaves)
   oo.feed <msgtype> <11> <41> <37> <150> <39> <14> <151> <6> <44> <38>   (report straight into the order)
   oo.push            remember the current link, reply its index
   oo.load <i>
@@ -67,6 +68,7 @@ def excT : Exc → String
   | .assertion => "Assertion"
   | .value => "Value"
   | .tagNotFound => "TagNotFound"
+  | .hook => "Hook"
 
 def resBoolT : Res Bool → String
   | .ok true => "1"
@@ -174,6 +176,22 @@ def handle (st : St) (cmd : String) (args : List String) : St × String :=
       let (l', out) := stepFull l a
       ({ st with cur := some l' }, linkT (outT out) l')
     | _, _ => (st, "bad-op")
+  | "actf", h :: toks =>
+    -- a builder action with a misbehaving hook: raises | bumps | reenters
+    let hk : Option Hook := match h with
+      | "raises" => some .raises | "bumps" => some .bumps | "reenters" => some .reenters | _ => none
+    match st.cur, hk, tokAction toks with
+    | some l, some hk, some a =>
+      let isNew := a == .cNew
+      let seen := if hk == .reenters then
+          let v := hookView l.order isNew
+          " seen=" ++ resBoolT v.1 ++ "," ++ resBoolT v.2
+        else ""
+      let (l', out) := stepHook l a hk
+      -- the hook only gets to look when the builder reaches it
+      let seen := match out with | .built _ => seen | _ => ""
+      ({ st with cur := some l' }, linkT (outT out ++ seen) l')
+    | _, _, _ => (st, "bad-op")
   | "feed", toks =>
     match st.cur, tokReport toks with
     | some l, some r =>
